@@ -446,6 +446,20 @@ func runAll(c *run.Ctx) {
 			}
 		}
 	}
+	for i := 0; i < c.N(1500, 20000); i++ {
+		c.Case("grid", i, func(k *run.K) {
+			// both operands on the grid lines of one small lattice: collinear overlaps, shared
+			// vertices and edges, touching rings are the rule
+			domain := gen.DSmall
+			g := &gen.G{R: k.Rng, Cfg: gen.NewCfg(k.Rng, domain)}
+			a := g.GridTyped(gen.AllTypes[k.Rng.Intn(7)])
+			b := g.GridTyped(gen.AllTypes[k.Rng.Intn(7)])
+			k.In("domain", domain)
+			k.In("a", shared.WKT(a))
+			k.In("b", shared.WKT(b))
+			Pair(k, domain, a, b, k.Rng.Chance(1, 3))
+		})
+	}
 	for i := 0; i < c.N(1200, 12000); i++ {
 		c.Case("targeted-collection", i, func(k *run.K) {
 			domain := gen.DSmall
